@@ -1,8 +1,9 @@
 //! Property registry.
 use crate::engine::PropertyInfo;
 
+pub mod c17;
 pub mod c20;
 
 pub fn registry() -> Vec<PropertyInfo> {
-    vec![c20::info()]
+    vec![c17::info(), c20::info()]
 }
